@@ -496,7 +496,8 @@ def midi_ticks_to_seconds(
         will be a numpy array with dtype float.
     """
 
-    time_in_seconds = (mpq * midi_ticks) / float(1e6 * ppq)
+    # (float(mpq): the product must not be formed in a narrow integer type of `midi_ticks`)
+    time_in_seconds = (float(mpq) * midi_ticks) / float(1e6 * ppq)
 
     return time_in_seconds
 
